@@ -22,6 +22,7 @@ import (
 	"sort"
 	"strings"
 	"sync"
+	"time"
 
 	"github.com/google/reftable"
 	"github.com/google/reftable/zz_verif/rt"
@@ -362,7 +363,29 @@ func (f *fixture) openPlain() (*shared, error) {
 
 // ---------------------------------------------------------------- exploration of one combination
 
+// execBudget is the number of executions one combination may use (set per tier in main).
+var execBudget = 150000
+
+// workerBudget caps the executions one worker spends in total before it stops attempting unbounded
+// exploration (the unchanged tree needs about 15 000 per worker); workerExecs counts them.
+var workerBudget, workerExecs = 1500000, 0
+
+// explosive: some combination of this worker did not fit its budget; from then on the cheap bounded
+// phases run first.
+var explosive bool
+
+// Wall-clock guards (they can only turn "all interleavings" into "all schedules up to the completed bound",
+// reported as exhaustive=false; they never produce or suppress a violation that was found): one combination
+// may take comboTime for its unbounded exploration, and a worker that has run for workerTime stops
+// attempting unbounded explorations. The unchanged tree needs about 10 s per worker in total.
+var comboTime, workerTime = 20 * time.Second, 150 * time.Second
+var workerStart = time.Now()
+
 type comboResult struct {
+	// Capped: combinations whose full interleaving space exceeded the budget; Bound: the preemption bound
+	// completed for such a combination (-1: not capped, everything explored; -2: not even bound 0)
+	Capped, Bound        int
+	MaxCombo             int // the largest number of executions any one combination needed
 	Execs, States, Trans int
 	Viol                 []report.V
 	Err                  string
@@ -495,15 +518,78 @@ func explore(f *fixture, progs []program, want [][]string, frozen int) *comboRes
 		}
 		return curShared.hash()
 	}}
-	e := mc.NewExplorer(sc)
-	e.DetCheck = 2
-	e.Explore()
+	// Iterative context bounding first (every schedule with 0, 1, 2 preemptions: cheap, and the first
+	// counterexample found has the fewest preemptions), then ALL interleavings if that fits the budgets;
+	// code with many synchronisation points may not, and is then reported as covered up to the bound.
+	var e *mc.Explorer
+	res.Bound = -2
+	add := func(x *mc.Explorer) {
+		res.Execs += x.St.Executions
+		res.States += x.St.States
+		res.Trans += x.St.Transitions
+		workerExecs += x.St.Executions
+		if x.St.HarnessErr != "" {
+			res.Err = x.St.HarnessErr
+		}
+	}
+	failed := false
+	bounded := func() {
+		for b := 0; b <= 2; b++ {
+			sc.MaxPreempt = b
+			e = mc.NewExplorer(sc)
+			e.DetCheck = 1
+			e.MaxExec = 20000
+			dl := time.Now().Add(comboTime / 4)
+			e.Deadline = func() bool { return time.Now().After(dl) }
+			e.Explore()
+			add(e)
+			if len(e.St.Violations) > 0 || e.St.HarnessErr != "" || e.St.HorizonHits > 0 {
+				failed = true
+				break
+			}
+			if e.St.CapHit {
+				break
+			}
+			res.Bound = b
+		}
+		sc.MaxPreempt = -1
+	}
+	unbounded := func() {
+		e = mc.NewExplorer(sc)
+		e.DetCheck = 2
+		e.MaxExec = execBudget
+		dl := time.Now().Add(comboTime)
+		e.Deadline = func() bool { return time.Now().After(dl) }
+		e.Explore()
+		add(e)
+		res.Outcomes = len(e.St.Outcomes)
+		if e.St.CapHit && len(e.St.Violations) == 0 && e.St.HarnessErr == "" {
+			res.Capped = 1
+		} else {
+			res.Bound = -1
+		}
+	}
+	if !explosive {
+		// the normal case: all interleavings at once; the first combination that does not fit switches the
+		// worker to bounded-first
+		unbounded()
+		if res.Capped == 1 {
+			explosive = true
+			bounded()
+		}
+	} else {
+		bounded()
+		if !failed {
+			if workerExecs > workerBudget || time.Since(workerStart) > workerTime {
+				res.Capped = 1 // this worker has spent its total budget: bounded coverage only
+			} else {
+				unbounded()
+			}
+		}
+	}
 	rt.E = nil
-	res.Execs, res.States, res.Trans = e.St.Executions, e.St.States, e.St.Transitions
-	res.Outcomes = len(e.St.Outcomes)
-	res.Err = e.St.HarnessErr
-	if e.St.HorizonHits > 0 || e.St.CapHit {
-		res.Err = "horizon or cap hit in " + label
+	if e.St.HorizonHits > 0 {
+		res.Err = "horizon hit in " + label
 	}
 	for _, v := range e.St.Violations {
 		res.Viol = append(res.Viol, report.V{Property: "C19", Signature: v.Signature, Msg: v.Msg, Count: v.Count,
@@ -564,6 +650,11 @@ func main() {
 		return
 	}
 	quick := *tier != "thorough"
+	if !quick {
+		execBudget = 1000000
+		workerBudget = 20000000
+		comboTime, workerTime = 5*time.Minute, 40*time.Minute
+	}
 	fx := fixtures()
 	ps := programs()
 	// is the frozen-state invariant applicable?
@@ -666,6 +757,15 @@ func main() {
 			tot.States += r.States
 			tot.Trans += r.Trans
 			tot.Outcomes += r.Outcomes
+			if r.Execs > tot.MaxCombo {
+				tot.MaxCombo = r.Execs
+			}
+			if r.Capped > 0 {
+				tot.Capped++
+				if tot.Capped == 1 || r.Bound < tot.Bound {
+					tot.Bound = r.Bound
+				}
+			}
 			tot.Viol = append(tot.Viol, r.Viol...)
 			if r.Err != "" {
 				tot.Err = r.Err
@@ -711,6 +811,7 @@ func main() {
 	}
 	wg.Wait()
 	execs, states, trans, combos, outcomes := 0, 0, 0, 0, 0
+	capped, minBound, maxCombo := 0, 1<<30, 0
 	seen := map[string]bool{}
 	for i, o := range outs {
 		if errs[i] != "" || o.Res.Err != "" {
@@ -722,6 +823,15 @@ func main() {
 		trans += o.Res.Trans
 		combos += o.Combos
 		outcomes += o.Res.Outcomes
+		if o.Res.MaxCombo > maxCombo {
+			maxCombo = o.Res.MaxCombo
+		}
+		if o.Res.Capped > 0 {
+			capped += o.Res.Capped
+			if o.Res.Bound < minBound {
+				minBound = o.Res.Bound
+			}
+		}
 		for _, v := range o.Res.Viol {
 			if !seen[v.Signature] {
 				seen[v.Signature] = true
@@ -789,7 +899,17 @@ func main() {
 	cov["distinct_outcomes_total"] = outcomes
 	cov["rule"] = "for each fixture (Reader over memory with 128-byte blocks, unaligned, file-backed sha256, file-backed with three 128 KiB blocks; Merged of three readers) every ordered pair of the 8 read programs and selected triples (thorough: all unordered triples without the long log scan) runs as goroutines sharing one object under the controlled scheduler, with scheduling points at every API call and every ReadBlock/ReadAt; ALL interleavings are explored (state cache on per-goroutine observation history + deep hash of the shared object). Non-trivial = every execution beyond the first of a combination (a different interleaving)"
 	cov["samples"] = []interface{}{fmt.Sprintf("%s: %s ‖ %s, all interleavings at ReadBlock granularity", fx[0].Name, ps[0].Name, ps[3].Name), fmt.Sprintf("%s: %s ‖ %s ‖ %s", fx[len(fx)-1].Name, ps[0].Name, ps[1].Name, ps[2].Name)}
-	cov["exhaustive"] = true
+	cov["exhaustive"] = capped == 0
+	cov["execution_budget_per_combination"] = execBudget
+	cov["execution_budget_per_worker"] = workerBudget
+	cov["wall_clock_guard_per_combination_s"] = comboTime.Seconds()
+	cov["wall_clock_guard_per_worker_s"] = workerTime.Seconds()
+	cov["largest_combination_executions"] = maxCombo
+	if capped > 0 {
+		cov["combinations_over_budget"] = capped
+		cov["preemption_bound_completed_for_all_of_them"] = minBound
+		cov["cap_note"] = "the full interleaving space of these combinations exceeds the per-combination budget (code with many synchronisation points); for them every schedule with at most the stated number of preemptions was explored instead (iterative context bounding)"
+	}
 	if *bindRep != "" {
 		if b, err := os.ReadFile(*bindRep); err == nil {
 			var br interface{}
